@@ -10,19 +10,20 @@ satisfying a policy: exactly `k` children at every threshold).
 Every theorem quantifies over ALL policies (any nesting depth, any number of children, any
 `k`, repeated atoms, constants anywhere) and all assignments / worlds; hypotheses, where present,
 are stated and are what the Rust constructors guarantee:
-  `WFC c`       thresholds have `1 ≤ k ≤ n`, `or` has a child          (Model/Concrete.lean)
-  `andBinary c` every concrete `and` has exactly two children           (Model/Concrete.lean)
-  `unsatFree c` no `UNSATISFIABLE` leaf                                  (Model/Concrete.lean)
-  `NF p`        `p` is in the normal form that `normalized` produces     (Model/Semantic.lean)
+  `WFC c`            thresholds have `1 ≤ k ≤ n`, `or` has a child     (Model/Concrete.lean)
+  `andOrNonEmpty c`  every concrete `and` / `or` has a child           (Model/Concrete.lean)
+  `unsatFree c`      no `UNSATISFIABLE` leaf                            (Model/Concrete.lean)
+  `NF p`             `p` is in the normal form that `normalized` produces (Model/Semantic.lean)
 
-Findings of the faithful model (each with a kernel-checked witness below):
-  F6   `entails` matches the constants before normalising — `entails_iff_full` is FALSE;
-       `entails_iff_partial` proves it for normalized inputs, `entails_after_normalizing` shows
-       that normalising first repairs it.
+History: the first version of this file refuted the full-strength `entails` statement (F6:
+constants were matched before normalising) and `lift` on non-binary `and` (2-of-n instead of
+n-of-n, panics on 0/1 children); both are repaired in /repo (`fix:` commits), the model follows
+the repaired code and both theorems now hold at full strength.
+
+Remaining finding of the faithful model (kernel-checked witness below):
   F10  `check_timelocks` over-approximates through `UNSATISFIABLE` branches —
        `check_timelocks_exact_full` is FALSE; sound always, exact for `UNSATISFIABLE`-free
        policies, and exact for all well-formed policies w.r.t. purely structural paths.
-  new  `lift` of a concrete `and` with ≠ 2 children builds a 2-of-n threshold (or panics).
 -/
 import MsVerif.Lemmas.PolicyOps
 import MsVerif.Lemmas.PolicyMinKeys
@@ -124,37 +125,24 @@ theorem entails_none_iff (a b : Policy) : entails a b = .none ↔ nTerminals a >
 /-- the recursion fuel of the model always suffices (all inputs) -/
 theorem entails_fuel (a b : Policy) : entails a b ≠ .outOfFuel := entails_fuel_ok a b
 
-/-- the property as stated: the answer is truth-table implication -/
-def entails_iff_full : Prop :=
-  ∀ a b : Policy, ∀ r : Bool, entails a b = .some r → (r = true ↔ Implies a b)
+/-- the answer is truth-table implication — ALL inputs, normalised or not -/
+theorem entails_iff (a b : Policy) (r : Bool) (h : entails a b = .some r) :
+    r = true ↔ Implies a b :=
+  entailsF_correct _ a b r h
 
-/-- proved for inputs in normal form (`NF`, e.g. anything `normalized` or `lift` returns).
-Missing for the full statement: constants hidden in an un-normalised input (F6, below). -/
-theorem entails_iff_partial (a b : Policy) (ha : NF a = true) (hb : NF b = true) (r : Bool)
-    (h : entails a b = .some r) : r = true ↔ Implies a b :=
-  entailsF_correct _ a b r ha hb h
+/-- put together: at most 20 terminals ⇒ a definite, correct answer -/
+theorem entails_decides (a b : Policy) (h : nTerminals a ≤ 20) :
+    ∃ r, entails a b = .some r ∧ (r = true ↔ Implies a b) := by
+  cases hr : entails a b with
+  | none => exact absurd ((entails_none_iff a b).mp hr) (by omega)
+  | outOfFuel => exact absurd hr (entails_fuel a b)
+  | some r => exact ⟨r, rfl, entails_iff a b r hr⟩
 
-/-- normalising both sides first gives the right answer for ALL inputs -/
-theorem entails_after_normalizing (a b : Policy) (r : Bool)
-    (h : entails (normalized a) (normalized b) = .some r) : r = true ↔ Implies a b := by
-  rw [entails_iff_partial _ _ (normalized_NF a) (normalized_NF b) r h]
-  simp only [Implies, normalized_holdsA]
-
-/-- F6: `TRIVIAL.entails(or(TRIVIAL, pk(0)))` answers `Some(false)` although the right-hand side
-is a tautology; likewise `and(UNSATISFIABLE, pk(0))` is said not to entail `pk(1)` -/
-theorem entails_iff_full_false : ¬ entails_iff_full := by
-  intro h
-  have h1 : entails .trivial (.thresh 1 [.trivial, .atom (.key 0)]) = .some false := by decide
-  have := (h _ _ false h1).mpr (by intro v _; simp [holdsA, countA])
-  simp at this
-
-theorem entails_F6_second_witness :
-    entails (.thresh 2 [.unsat, .atom (.key 0)]) (.atom (.key 1)) = .some false
-    ∧ Implies (.thresh 2 [.unsat, .atom (.key 0)]) (.atom (.key 1)) := by
-  refine ⟨by decide, ?_⟩
-  intro v hv
-  simp only [holdsA, countA] at hv
-  cases hk : v (.key 0) <;> simp [hk] at hv
+/-- the former F6 witnesses are now answered correctly -/
+theorem entails_former_F6_witnesses :
+    entails .trivial (.thresh 1 [.trivial, .atom (.key 0)]) = .some true
+    ∧ entails (.thresh 2 [.unsat, .atom (.key 0)]) .unsat = .some true
+    ∧ entails (.thresh 2 [.unsat, .atom (.key 0)]) (.atom (.key 1)) = .some true := by decide
 
 /-! ## T5 — `minimum_n_keys` -/
 
@@ -189,19 +177,21 @@ theorem minimum_n_keys_none (p : Policy) :
 
 /-! ## T6 — lifting concrete policies -/
 
-/-- the lifted policy has the concrete policy's truth table (every assignment) -/
-theorem concrete_lift_equiv (c : CPolicy) (hb : andBinary c = true) (s : Policy)
-    (h : lift c = .ok s) (v : Atom → Bool) : holdsA v s = holdsC v c :=
-  lift_holdsA v c hb s h
+/-- the lifted policy has the concrete policy's truth table — every concrete policy (any number
+of children of `and` / `or`), every assignment -/
+theorem concrete_lift_equiv (c : CPolicy) (s : Policy) (h : lift c = .ok s) (v : Atom → Bool) :
+    holdsA v s = holdsC v c :=
+  lift_holdsA v c s h
 
-theorem concrete_lift_holds (c : CPolicy) (hb : andBinary c = true) (s : Policy)
-    (h : lift c = .ok s) (W : World) : holds W s = holdsCW W c :=
-  lift_holdsA W.val c hb s h
+theorem concrete_lift_holds (c : CPolicy) (s : Policy) (h : lift c = .ok s) (W : World) :
+    holds W s = holdsCW W c :=
+  lift_holdsA W.val c s h
 
-/-- `lift` fails exactly when `check_timelocks` does and never panics on well-formed input -/
-theorem concrete_lift_total (c : CPolicy) (hb : andBinary c = true) (hw : WFC c = true) :
+/-- `lift` fails exactly when `check_timelocks` does, provided no `and` / `or` is empty (an
+empty one has no `Threshold` and is refused: `concrete_lift_empty_refused`) -/
+theorem concrete_lift_total (c : CPolicy) (hn : andOrNonEmpty c = true) :
     (checkTimelocks c = false ∧ lift c = .err)
-    ∨ (checkTimelocks c = true ∧ ∃ s, lift c = .ok s) := lift_total c hb hw
+    ∨ (checkTimelocks c = true ∧ ∃ s, lift c = .ok s) := lift_total c hn
 
 /-- the lifted policy is in normal form -/
 theorem concrete_lift_normal_form (c : CPolicy) (s : Policy) (h : lift c = .ok s) :
@@ -230,22 +220,15 @@ theorem concrete_lift_normal_form (c : CPolicy) (s : Policy) (h : lift c = .ok s
     · obtain ⟨ps, _, hk⟩ := collectLift_ok h
       simp only [LiftRes.ok.injEq] at hk; subst hk; exact normalized_NF _
 
-/-- without `andBinary` the statement is false: `And(vec![a, b, c])` (constructible through the
-public enum) lifts to the 2-of-3 threshold -/
-theorem concrete_lift_nonbinary_and_wrong :
-    ∃ c s v, lift c = .ok s ∧ holdsA v s ≠ holdsC v c :=
-  ⟨.and [.atom (.key 0), .atom (.key 1), .atom (.key 2)],
-   .thresh 2 [.atom (.key 0), .atom (.key 1), .atom (.key 2)],
-   valOf [.key 0, .key 1], by rfl, by decide⟩
-
-def LiftRes.isPanic : LiftRes → Bool
-  | .panic => true
+def LiftRes.isErrThreshold : LiftRes → Bool
+  | .errThreshold => true
   | _ => false
 
-/-- and a one-child `and` / an empty `or` make `lift` panic (`Threshold::new(..).unwrap()`) -/
-theorem concrete_lift_panics :
-    LiftRes.isPanic (lift (.and [.atom (.key 0)])) = true
-    ∧ LiftRes.isPanic (lift (.or [])) = true := by decide
+/-- an empty `and` / `or` is refused with `Error::Threshold` (no panic) -/
+theorem concrete_lift_empty_refused :
+    LiftRes.isErrThreshold (lift (.and [])) = true
+    ∧ LiftRes.isErrThreshold (lift (.or [])) = true
+    ∧ LiftRes.isErrThreshold (lift (.and [.atom (.key 0), .or []])) = true := by decide
 
 /-! ## T7 — `check_timelocks` -/
 
@@ -319,10 +302,11 @@ example : entails (.atom (.key 1)) (.thresh 2 [.atom (.key 0), .atom (.key 1)]) 
 example : minimumNKeys (.thresh 2 [.atom (.key 0), .atom (.older 144),
     .thresh 2 [.atom (.key 1), .atom (.key 2)]]) = some 1 := by
   rw [minimum_n_keys_exact]; decide
-example : andBinary (.and [.atom (.key 0), .or [.atom (.key 1), .atom (.older 5)]]) = true
+example : andOrNonEmpty (.and [.atom (.key 0), .or [.atom (.key 1), .atom (.older 5)]]) = true
     ∧ WFC (.and [.atom (.key 0), .or [.atom (.key 1), .atom (.older 5)]]) = true := by decide
-example : LiftRes.isPanic (lift (.and [.atom (.key 0), .or [.atom (.key 1), .atom (.older 5)]]))
-    = false := by decide
+example : lift (.and [.atom (.key 0), .atom (.key 1), .atom (.key 2)])
+    = .ok (.thresh 3 [.atom (.key 0), .atom (.key 1), .atom (.key 2)]) := by rfl
+example : lift (.and [.atom (.key 0)]) = .ok (.atom (.key 0)) := by rfl
 example : unsatFree (.thresh 2 [.atom (.older 1), .atom (.older 4194305), .atom (.key 0)]) = true
     ∧ checkTimelocks (.thresh 2 [.atom (.older 1), .atom (.older 4194305), .atom (.key 0)]) = false
     ∧ checkTimelocks (.or [.atom (.older 1), .atom (.older 4194305)]) = true := by decide
